@@ -48,6 +48,7 @@ myth_tls_tree_node_alloc(myth_tls_tree_t * t, size_t sz) {
 
 /* free a node (internal or leaf) of a tls tree */
 static inline void myth_tls_tree_node_free(myth_tls_tree_t * t, myth_tls_tree_node_t * n) {
+  MYTH_VERIF_POINT(MYTH_VP_TLS_NODE_FREE, t, n, 0);
 #if MYTH_TLS_TREE_PRE_ALLOC
   /* do nothing if it is from a pre-allocated buffer */
   char * nc = (char *)n;
@@ -272,6 +273,7 @@ myth_tls_key_allocator_alloc(myth_tls_key_allocator_t * s,
     myth_tls_key_entry_t * ke = s->free;
     if (ke) {
       myth_tls_key_entry_t * next = ke->next;
+      MYTH_VERIF_POINT(MYTH_VP_TLS_KEY_CAS_ALLOC, s, ke, 0);
       if (__sync_bool_compare_and_swap(&s->free, ke, next)) {
 	/* mark the key as used */
 	ke->next = (myth_tls_key_entry_t *)-1;
@@ -300,6 +302,7 @@ myth_tls_key_allocator_dealloc(myth_tls_key_allocator_t * s, int key) {
     /* try to push the cell to the free list */
     myth_tls_key_entry_t * head = s->free;
     ke->next = head;
+    MYTH_VERIF_POINT(MYTH_VP_TLS_KEY_CAS_DEALLOC, s, ke, 0);
     if (__sync_bool_compare_and_swap(&s->free, head, ke)) {
       return f;
     }
